@@ -17,6 +17,8 @@ static void cleanup(void *p) { struct el *e = p; if (!quiet) printf("dispose %s#
 
 static struct set *s;
 static int tag;
+/* nodes taken out without disposal are kept and REUSED by later insertions, so that stale links in a node are exercised */
+static struct set_node *pool[65536]; static unsigned npool; static int reuse = 1;
 
 static void setkey(struct el *e, const char *k)
 {
@@ -49,6 +51,7 @@ static void show(void)
     printf("chain ");
     for (n = set_first(s); n; prev = n, n = set_next(n), cnt++) {
         struct el *e = set_node_data(n);
+        if (cnt > set_size(s) + 3) { printf("CYCLE "); break; }   /* a corrupted chain must not run away */
         if (set_prev(n) != prev) printf("BADPREV ");
         printf("%s#%d ", kstr(e), e->tag);
     }
@@ -80,7 +83,7 @@ int main(void)
         if (!strcmp(cmd, "mode")) { strmode = !strcmp(k, "str"); fresh(); }
         else if (!strcmp(cmd, "reset")) { fresh(); printf("reset\n"); }
         else if (!strcmp(cmd, "ins")) {
-            struct set_node *n = set_node_alloc(sizeof(struct el)); struct el *e = set_node_data(n);
+            struct set_node *n = (reuse && npool) ? pool[--npool] : set_node_alloc(sizeof(struct el)); struct el *e = set_node_data(n);
             setkey(e, k); e->tag = ++tag; set_insert(s, n); printf("ins\n");
         } else if (!strcmp(cmd, "find")) {
             struct el *e = set_find(s, &probe); if (e) printf("find %s#%d\n", kstr(e), e->tag); else printf("find none\n");
@@ -89,19 +92,20 @@ int main(void)
             if (n) { struct el *e = set_node_data(n); printf("lower %s#%d\n", kstr(e), e->tag); } else printf("lower none\n");
         } else if (!strcmp(cmd, "rem")) {
             int r; struct set_node *n;
-            for (n = set_first(s); n; n = set_next(n)) if (!s->compare(&probe, set_node_data(n))) break;
+            { unsigned guard = 0; for (n = set_first(s); n && guard <= set_size(s) + 3; n = set_next(n), guard++) if (!s->compare(&probe, set_node_data(n))) break; if (guard > set_size(s) + 3) n = NULL; }
             r = set_remove(s, &probe, nd); printf("rem %d\n", r);
-            if (r && nd && n) free(n);   /* with no_dispose the caller owns the node */
+            if (r && nd && n) { if (npool < 65536) pool[npool++] = n; else free(n); }   /* with no_dispose the caller owns the node */
         } else if (!strcmp(cmd, "clear")) {
             nd = atoi(k);
             if (nd) {
                 struct set_node *n = set_first(s), *nx; struct set_node **keep = xmalloc((set_size(s) + 1) * sizeof(*keep)); unsigned c = 0, i;
-                for (; n; n = nx) { nx = set_next(n); keep[c++] = n; }
-                set_clear(s, 1); for (i = 0; i < c; i++) free(keep[i]); free(keep);
+                for (; n && c < set_size(s); n = nx) { nx = set_next(n); keep[c++] = n; }
+                set_clear(s, 1); for (i = 0; i < c; i++) { if (npool < 65536) pool[npool++] = keep[i]; else free(keep[i]); } free(keep);
             } else set_clear(s, 0);
             printf("clear\n");
         } else if (!strcmp(cmd, "show")) show();
     }
     quiet = 1; set_clear(s, 0); free(s);
+    while (npool) free(pool[--npool]);
     return 0;
 }
